@@ -75,6 +75,13 @@ fn gen_requests(rng: &mut Rng, n: usize, big: bool, huge: bool) -> Vec<(usize, u
         let size = if big && rng.pct(35) { *rng.pick(sizes_big) } else { *rng.pick(&sizes_small) };
         v.push((c, kind, size));
     }
+    // every history ends with a client that replaces its own snapshot (twice) and another client's
+    // first snapshot in between
+    let c = rng.usize(4);
+    let o = (c + 1) % 4;
+    for (cl, kind, size) in [(c, 0u8, 200usize), (c, 2, 4100), (o, 0, 10), (c, 0, 200), (o, 2, 300), (c, 2, 9000), (c, 0, 10), (c, 2, 64)] {
+        v.push((cl, kind, size));
+    }
     v
 }
 
